@@ -78,10 +78,10 @@ pub fn models(id: &str, tier: &str) -> Vec<HistoryModel> {
         return v;
     }
     if quick {
-        v.push(base(vec![WorldCfg::default()], 3, 1, vec![], false));
-        v.push(base(vec![alt_cfg()], 2, 1, vec!["S0", "S3", "S4", "S8", "S10"], false));
+        v.push(base(vec![WorldCfg::default()], 3, 2, vec![], false));
+        v.push(base(vec![alt_cfg()], 3, 1, vec!["S0", "S3", "S4", "S8", "S10"], false));
     } else {
-        v.push(base(vec![WorldCfg::default()], 4, 2, vec![], true));
+        v.push(base(vec![WorldCfg::default()], 4, 3, vec![], true));
         // every commit-option combination
         let mut cfgs = vec![];
         for bits in 0..16u8 {
